@@ -21,6 +21,7 @@ import (
 	"fmt"
 	"io"
 	"log"
+	"os"
 
 	"perkeep.org/pkg/blob"
 )
@@ -91,6 +92,12 @@ func (ds *Storage) ReceiveBlob(ctx context.Context, blobRef blob.Ref, source io.
 	}
 
 	stat, err = ds.fs.Lstat(fileName)
+	if os.IsNotExist(err) {
+		// The rename succeeded, so the blob was stored; it has already been
+		// removed again by a concurrent RemoveBlobs. That is not a receive failure.
+		success = true
+		return blob.SizedRef{Ref: blobRef, Size: uint32(written)}, nil
+	}
 	if err != nil {
 		return blob.SizedRef{}, err
 	}
